@@ -487,6 +487,10 @@ static void _binson_print_cb(binson_parser *parser, uint16_t next_state, void *c
             if (state->array_depth > 0) {
                 *pstate = 0x05;
             }
+            else {
+                /* The object was a field value: a following field needs a separator. */
+                *pstate = 0x02;
+            }
             printf("}");
             break;
         case BINSON_STATE_PARSED_ARRAY_BEGIN:
@@ -594,6 +598,10 @@ static void _binson_to_string_cb(binson_parser *parser, uint16_t next_state, voi
         case BINSON_STATE_PARSED_OBJECT_END:
             if (state->array_depth > 0) {
                 *pstate = 0x05;
+            }
+            else {
+                /* The object was a field value: a following field needs a separator. */
+                *pstate = 0x02;
             }
             ret = snprintf(pbuf, available, "}");
             break;
